@@ -144,8 +144,12 @@ MonoClause(g) == IF \E q \in 1..Len(Chain(g)) - 1 : LET f1 == F[Chain(g)[q]] f2 
                  ELSE "ok"
 C04Clause == First([i \in 1..NF |-> OptFit(F[i])] \o [i \in 1..NF |-> PcaFit(F[i])] \o [i \in 1..NF |-> LrFit(F[i])] \o [g \in 1..Len(C.chains) |-> MonoClause(g)])
 (* ------------------------------ verdict ------------------------------ *)
-TooBig == \E i \in 1..NF : FMaxAbs(F[i].T) > 120 * S \/ FMaxAbs(F[i].pxt) > 120 * S \/ FMaxAbs(F[i].ptx) > 120 * S \/ FMaxAbs(F[i].pty) > 120 * S
+\* the projectors can legitimately be large (small eigenvalues); the latent coordinates cannot: their squared norms are
+\* eigenvalues of the modified Gram matrix, bounded by |X|^2 + |Yhat|^2 of the (small, bounded) inputs
+TooBig == \E i \in 1..NF : FMaxAbs(F[i].pxt) > 120 * S \/ FMaxAbs(F[i].ptx) > 120 * S \/ FMaxAbs(F[i].pty) > 120 * S
+TBig == \E i \in 1..NF : FMaxAbs(F[i].T) > 120 * S
 Clause == IF C.raised THEN "valid-fit-raised"
+          ELSE IF TBig THEN "latent-coordinates-out-of-range-or-not-finite"
           ELSE IF TooBig THEN "inconclusive"
           ELSE IF C.mode = "C14" THEN C14Clause ELSE IF C.mode = "C03" THEN C03Clause ELSE C04Clause
 Verdict == LET c == Clause IN IF c = "ok" THEN <<"ok">> ELSE IF c = "inconclusive" THEN <<"inconclusive", "magnitude">> ELSE <<"rejected", c>>
